@@ -1,6 +1,7 @@
 import Swat4.Lemmas.QueueSys
 import Swat4.Lemmas.StoreRefine
 import Swat4.Model.Prog
+import Swat4.Lemmas.StoreDrv
 /-!
 # The Redis-level instance table and probe queue refine the specification (helper lemmas of C11, part 2)
 
@@ -982,3 +983,97 @@ theorem runHistQ_sim {m : SeqQ} {s : AbsState × Int} (h : SimQ m s) (cs : List 
     rw [this.2, ih this.1]
 
 end Swat4
+
+/-! ## the drivers' sequential runner for instance / queue calls -/
+namespace Swat4.Drv
+open Swat4
+
+/-- more fuel does not change a finished run -/
+theorem runQ_mono (st : RStore) (clock : Int) (fresh : Nat) (op : QOp) (pc : QPC) (n m : Nat) (r : QResult)
+    (h : (runQ st clock fresh op pc n).2.1 = .done r) :
+    runQ st clock fresh op pc (n + m) = runQ st clock fresh op pc n := by
+  induction n generalizing st fresh pc with
+  | zero =>
+    have hpc : pc = .done r := h
+    subst hpc
+    rw [runQ_done, runQ_done]
+  | succ n ih =>
+    by_cases hl : pc.live = true
+    · rw [Nat.add_right_comm, runQ_succ_live _ _ _ _ _ _ hl, runQ_succ_live _ _ _ _ _ _ hl]
+      rw [runQ_succ_live _ _ _ _ _ _ hl] at h
+      exact ih _ _ _ h
+    · obtain ⟨r', rfl⟩ : ∃ r', pc = .done r' := by
+        cases pc with
+        | done r' => exact ⟨r', rfl⟩
+        | _ => exact absurd rfl hl
+      rw [runQ_done, runQ_done]
+
+/-- `runQC` without crash is `runQ` plus trace labels: if the machine run alone reaches `done r` within `fuel`
+commands, the runner (one more unit of fuel for the final look at the pc) ends in the same keyspace with the same id
+counter and renders `r` -/
+theorem runQC_none (s : SeqState) (op : QOp) (pc : QPC) (fuel n : Nat) (tr : List String) (r : QResult)
+    (hdone : (runQ s.st s.clock s.fresh op pc fuel).2.1 = .done r) :
+    (runQC s op pc .none (fuel + 1) n tr).1.st = (runQ s.st s.clock s.fresh op pc fuel).1 ∧
+    (runQC s op pc .none (fuel + 1) n tr).1.clock = s.clock ∧
+    (runQC s op pc .none (fuel + 1) n tr).1.fresh = (runQ s.st s.clock s.fresh op pc fuel).2.2 ∧
+    (runQC s op pc .none (fuel + 1) n tr).2.1 = renderQResult op r := by
+  induction fuel generalizing s pc n tr with
+  | zero =>
+    have hpc : pc = .done r := hdone
+    subst hpc
+    exact ⟨rfl, rfl, rfl, rfl⟩
+  | succ fuel ih =>
+    by_cases hl : pc.live = true
+    · rw [runQ_succ_live _ _ _ _ _ _ hl] at hdone ⊢
+      have hstep : runQC s op pc .none (fuel + 1 + 1) n tr =
+          runQC ⟨(qstep s.st s.clock s.fresh op pc).1, s.clock,
+              if (qstep s.st s.clock s.fresh op pc).2.2.1 then s.fresh + 1 else s.fresh⟩ op
+            (qstep s.st s.clock s.fresh op pc).2.1 .none (fuel + 1) (n + 1)
+            (tr ++ [s!"0:{(qstep s.st s.clock s.fresh op pc).2.2.2}"]) := by
+        cases pc with
+        | done r' => exact absurd hl (by simp [QPC.live])
+        | _ => rfl
+      rw [hstep]
+      exact ih ⟨(qstep s.st s.clock s.fresh op pc).1, s.clock,
+          if (qstep s.st s.clock s.fresh op pc).2.2.1 then s.fresh + 1 else s.fresh⟩ _ (n + 1) _ hdone
+    · obtain ⟨r', rfl⟩ : ∃ r', pc = .done r' := by
+        cases pc with
+        | done r' => exact ⟨r', rfl⟩
+        | _ => exact absurd rfl hl
+      rw [runQ_done] at hdone ⊢
+      cases hdone
+      exact ⟨rfl, rfl, rfl, rfl⟩
+
+/-- from related states every machine call run alone finishes within its budget -/
+theorem call_done {m : SeqQ} {s : AbsState × Int} (h : SimQ m s) (op : QOp) :
+    ∃ r, (runQ m.st m.clock m.fresh op op.begin m.budget).2.1 = .done r := by
+  have hb : 3 ≤ m.budget := by unfold SeqQ.budget; omega
+  cases op with
+  | insAdd id ad => exact ⟨_, (insAdd_refines_aux h.relI m.clock m.fresh ⟨id, ad⟩ (fuel := m.budget) (by omega)).1⟩
+  | insRemove id => exact ⟨_, (insRemove_refines_aux h.relI m.clock m.fresh id (fuel := m.budget) (by omega)).1⟩
+  | insClear before => exact ⟨_, (insClear_refines_aux h.cons h.relI m.clock m.fresh before (fuel := m.budget) (by omega)).1⟩
+  | enqueue p after before =>
+    exact ⟨_, (enqueue_refines_aux h.relQ m.clock m.fresh h.fresh p after before (fuel := m.budget) (by omega)).1⟩
+  | popMany n =>
+    exact ⟨_, (popMany_refines_aux h.cons h.relQ m.clock m.fresh n (fuel := m.budget)
+      (by show 2 * m.st.pQueue.size + 1 ≤ 2 * m.st.pQueue.size + 3; omega)).1⟩
+
+/-- **the drivers' `runCall` for an instance / queue call, without crash, is the machine call of the history theorem**:
+whenever the call's budget `2·ZCARD + 3` fits the runner's 200 (at most 98 queued probes), `runCall` ends in the
+keyspace and id counter of `SeqQ.call` and renders its result -/
+theorem runCall_q_eq (s : SeqState) (op : QOp) (r : QResult) (hb : 2 * s.st.pQueue.size + 3 ≤ 199)
+    (h : (runQ s.st s.clock s.fresh op op.begin (2 * s.st.pQueue.size + 3)).2.1 = .done r) :
+    (runCall s (.q op) .none).1.st = (SeqQ.call ⟨s.st, s.clock, s.fresh⟩ op).1.st ∧
+    (runCall s (.q op) .none).1.fresh = (SeqQ.call ⟨s.st, s.clock, s.fresh⟩ op).1.fresh ∧
+    (runCall s (.q op) .none).1.clock = s.clock ∧
+    (runCall s (.q op) .none).2.1 = renderQResult op r := by
+  obtain ⟨k, hk⟩ : ∃ k, 199 = 2 * s.st.pQueue.size + 3 + k := ⟨199 - (2 * s.st.pQueue.size + 3), by omega⟩
+  have hm := runQ_mono s.st s.clock s.fresh op op.begin (2 * s.st.pQueue.size + 3) k r h
+  rw [← hk] at hm
+  have hd : (runQ s.st s.clock s.fresh op op.begin 199).2.1 = .done r := by rw [hm]; exact h
+  obtain ⟨e1, e2, e3, e4⟩ := runQC_none s op op.begin 199 0 [] r hd
+  have e0 : runCall s (.q op) .none = runQC s op op.begin .none (199 + 1) 0 [] := rfl
+  rw [e0, e1, e3, hm]
+  exact ⟨rfl, rfl, e2, e4⟩
+
+end Swat4.Drv
